@@ -13,11 +13,32 @@ from sa.rules.c07 import check_worker
 LP = "sedpack.io.itertools.lazy_pool"
 
 
+_SENTINEL_CONSTANTS: set[str] = set()
+
+
+def note_sentinel_constants(ctx: Context) -> None:
+    """Module-level names bound to `StopSentinel()` (a shared sentinel
+    instance) read as the constructor call in the rules' normal form."""
+    _SENTINEL_CONSTANTS.clear()
+    for name, val in ctx.repo.module(LP).globals.items():
+        if isinstance(val, ast.Call) and not val.args and not val.keywords \
+                and (dotted(val.func) or "").endswith("StopSentinel"):
+            _SENTINEL_CONSTANTS.add(name)
+
+
 def norm(e: ast.AST | None) -> str:
-    return ast.unparse(e) if e is not None else "<none>"
+    if e is None:
+        return "<none>"
+    s = ast.unparse(e)
+    if _SENTINEL_CONSTANTS:
+        import re as _re
+        for name in _SENTINEL_CONSTANTS:
+            s = _re.sub(rf"(?<![\w.]){_re.escape(name)}\b", "StopSentinel()", s)
+    return s
 
 
 def check_consumer(ctx: Context, rep, rule: str):
+    note_sentinel_constants(ctx)
     imap = ctx.fn(f"{LP}:LazyPool.imap_unordered")
     # -- consumer -----------------------------------------------------------------
     rep.rule(
@@ -124,6 +145,7 @@ def check_consumer(ctx: Context, rep, rule: str):
 
 
 def check_sentinel(ctx: Context, rep, rule: str, cfg=None) -> None:
+    note_sentinel_constants(ctx)
     run_fn = ctx.fn(f"{LP}:Collector.run")
     if cfg is None:
         cfg = ctx.cfg(run_fn)
@@ -139,7 +161,10 @@ def check_sentinel(ctx: Context, rep, rule: str, cfg=None) -> None:
     ]
     rep.ob(rule, len(sent_tests) == 1, loc=run_fn.loc(),
            where=run_fn.qualname, construct="if isinstance(element, StopSentinel)",
-           message="sentinel test present in the worker loop")
+           message="the worker recognises the sentinel by type "
+           "(isinstance), exactly once; not by `==` (iter(callable, sentinel) "
+           "/ `element == STOP` run the element's own __eq__, which may raise "
+           "or answer with an array)")
     for t in sent_tests:
         body = t.stmt.body
         puts = [c for s in body for c in ast.walk(s) if isinstance(c, ast.Call)
@@ -172,6 +197,7 @@ def check_sentinel(ctx: Context, rep, rule: str, cfg=None) -> None:
 
 
 def check_owner(ctx: Context, rep, rule: str) -> None:
+    note_sentinel_constants(ctx)
     rep.rule(
         rule,
         "queue ownership: only the workers take from the to-process queue "
@@ -300,6 +326,7 @@ def run(ctx: Context, rep) -> None:
         "queue.Queue is a correct FIFO with blocking get",
         "threading.Thread.start runs run() once",
     ]
+    note_sentinel_constants(ctx)
     pool = ctx.repo.cls(f"{LP}:LazyPool")
     imap = ctx.fn(f"{LP}:LazyPool.imap_unordered")
     reset = ctx.fn(f"{LP}:LazyPool.finish_and_reset")
@@ -383,6 +410,29 @@ def run(ctx: Context, rep) -> None:
                message="all constructed workers are started (plain loop over "
                "the list)")
 
+    # the reset can only stop workers whose queue it knows: the to-process
+    # queue is stored on the pool before the first worker is started (an
+    # exception of the input iterable or of Thread.start during start-up then
+    # still finds the queue in finish_and_reset)
+    rep.rule(
+        "C13.publish",
+        "in imap_unordered the store `self._to_process = <queue>` precedes "
+        "every Thread.start() on every path (must-precede on the CFG)")
+    icfg0 = ctx.cfg(imap)
+    pub = [n for n in icfg0.nodes if n.kind == "stmt" and isinstance(
+        n.ast, (ast.Assign, ast.AnnAssign)) and any(
+            dotted(t) == "self._to_process" for t in (
+                n.ast.targets if isinstance(n.ast, ast.Assign)
+                else [n.ast.target])) and not (isinstance(
+                    n.ast.value, ast.Constant) and n.ast.value.value is None)]
+    start_nodes = icfg0.calls(lambda c: any(c is s for s in starts))
+    early = icfg0.always_before(pub, start_nodes, normal_only=True)
+    rep.ob("C13.publish", bool(pub) and bool(start_nodes) and not early,
+           loc=imap.loc(early[0].ast) if early else imap.loc(),
+           where=imap.qualname,
+           construct="self._to_process = queue ... collector.start()",
+           message="workers are started before the pool knows their queue: a "
+           "failure during start-up / prefill leaves them blocked forever")
     # -- worker -----------------------------------------------------------------
     facts = check_worker(ctx, rep, "C13.worker")
     f = facts.get("Collector")
